@@ -2,6 +2,6 @@ package main
 
 func init() {
 	reg(propDef{ID: "C04", Test: "TestC04", Level: "fault_enumeration", Shards: [2]int{12, 16}, CapMin: [2]int{10, 60},
-		Rule:   "cases enumerate (start state: ready/no pipe/send held in a slow peer) x (end: answered/superseded/context closed/socket closed/recv timeout) x RetryTime {0,40,60,90,120ms,1h} cells cyclically; within a cell the PRNG places 0-4 faults (drop carrying pipe, drop other pipe, add pipe, wait for retry expiry, pause) on 1-3 contexts x 1-4 vt peers. Monitor over the vt send log: byte-identical retransmissions; every retransmission needs a cause (close of the previous carrier, or a retry timer whose sound lower-bound expiry has passed; pending timers are superseded by each retransmission); nothing after answered/superseded/closed/cancelled; completion judged by the stuck detector. non-trivial = at least one retransmission or a cancellation by loss; distinct = (start, fault string, end, retry, #transmissions)",
+		Rule:   "cases enumerate (start state: ready/no pipe/send held in a slow peer) x (end: answered/superseded/context closed/socket closed/recv timeout) x RetryTime {0,40,60,90,120ms,1h} cells cyclically; within a cell the PRNG places 0-4 faults (drop carrying pipe, drop other pipe, add pipe, wait for retry expiry, pause) on 1-3 contexts x 1-4 vt peers. Monitor over the vt send log: byte-identical retransmissions; every retransmission needs a cause (close of the previous carrier, or a retry timer whose sound lower-bound expiry has passed; pending timers are superseded by each retransmission); nothing after answered/superseded/closed/cancelled; completion judged by the stuck detector. The REQ rig overwrites its send buffer as soon as Send returned (retransmissions must still be the original bytes). After the request's life ended (answered, superseded, timed out, context closed) the connection that carried it is dropped while another one stays: nothing may be transmitted for it. The fault script starts only once Recv is seen parked inside the library. non-trivial = at least one retransmission or a cancellation by loss; distinct = (start, fault string, end, retry, #transmissions)",
 		Assume: commonAssume})
 }
